@@ -38,6 +38,7 @@ STREAM = {
     "C08": ("c08", ["--counts", "--cases", 700, "--cost", 1000000], ["--counts", "--cases", 6000, "--cost", 20000000, "--bigshare", 20]),
     "C09": ("c09", ["--cases", 900, "--cost", 1500000], ["--cases", 9000, "--cost", 30000000, "--bigshare", 40]),
     "C05": ("c05", ["--cases", 400, "--cost", 500000], ["--cases", 4000, "--cost", 8000000]),
+    "C15": ("c15", ["--cases", 600, "--cost", 800000], ["--cases", 6000, "--cost", 15000000, "--bigshare", 20]),
     "C14": ("c14", ["--cases", 300, "--cost", 300000], ["--cases", 3000, "--cost", 5000000]),
     "C13": ("c13", ["--cases", 400, "--cost", 400000], ["--cases", 3000, "--cost", 6000000, "--bigshare", 10]),
 }
